@@ -368,7 +368,14 @@ pub fn targeted_invalid_padded(pad_byte: Option<u8>) -> Vec<(String, Vec<u8>, bo
         b.fixed(&[Token::Lit(b'h'), Token::Lit(b'i')], true);
         b.finish()
     };
-    for (cmf, flg, name) in [(0x79u8, 0x9cu8, "cm=9"), (0x88, 0x1c, "cinfo=8"), (0x78, 0xbb, "fdict"), (0x78, 0x9d, "fcheck"), (0x08, 0x1e, "fcheck-small")] {
+    let mut hdrs: Vec<(u8, u8, String)> = [(0x79u8, 0x9cu8, "cm=9"), (0x88, 0x1c, "cinfo=8"), (0x78, 0xbb, "fdict"), (0x78, 0x9d, "fcheck"), (0x08, 0x1e, "fcheck-small")].iter().map(|x| (x.0, x.1, x.2.to_string())).collect();
+    // every window field above 7 with otherwise flawless header bytes
+    for cinfo in 9..=15u8 {
+        let cmf = (cinfo << 4) | 8;
+        let flg = (31 - (cmf as u32 * 256) % 31) % 31;
+        hdrs.push((cmf, flg as u8, format!("cinfo={}", cinfo)));
+    }
+    for (cmf, flg, name) in hdrs {
         let mut d = vec![cmf, flg];
         d.extend_from_slice(&body.bytes);
         let a = adler32_def(1, &body.plain);
@@ -633,13 +640,19 @@ pub fn run(tier: &str) -> i32 {
         if z.end {
             crate::props::selftest::machinery_fail(&format!("system zlib accepts targeted violation [{}]", name));
         }
-        for mem in [MemCfg { mode: Mode::Flat, len: 600 }] {
+        // header and checksum rules do not depend on the output geometry: the zlib cases also run
+        // with rings from 32 KiB to 1 MiB (a ring larger than any legal window included)
+        let mut mems = vec![MemCfg { mode: Mode::Flat, len: 600 }];
+        if *zlib {
+            mems.extend([MemCfg { mode: Mode::Ring, len: 32768 }, MemCfg { mode: Mode::Ring, len: 65536 }, MemCfg { mode: Mode::Ring, len: 1 << 17 }, MemCfg { mode: Mode::Ring, len: 1 << 20 }]);
+        }
+        for mem in mems {
             for ch in chunkings_for(d.len(), true) {
                 if let Err((site, what)) = check_one(d, *zlib, mem, ch, Known::Nothing, &mut acc3) {
                     rep.violation(
                         &format!("C04/{}/{}", site, name),
-                        format!("{} :: targeted violation [{}] {:?}", what, name, ch),
-                        json!({"input_hex": hex(d), "zlib": zlib, "mode": "Flat", "buflen": 600, "chunking": format!("{:?}", ch), "proper_prefix": false, "base": name}),
+                        format!("{} :: targeted violation [{}] {:?} {:?}", what, name, mem, ch),
+                        json!({"input_hex": hex(d), "zlib": zlib, "mode": format!("{:?}", mem.mode), "buflen": mem.len, "chunking": format!("{:?}", ch), "proper_prefix": false, "base": name}),
                     );
                 }
                 // record which failure state the crate ended in
